@@ -477,7 +477,25 @@ def rekey_cell_cases(draw, by_peer, n):
     return {'cfgs': cfgs, 'stale': 0, 'ops': ops, 'close': True, 'auto_index': False, 'directed': f'rekey:{"peer" if by_peer else "self"}:{n}'}
 
 
+@st.composite
+def queue_cases(draw):
+    """directed: several events queued behind an outstanding exchange, one of which turns out to need no request (an ACQUIRE for
+    an unknown index, an expiry notice for an SPI nobody has): the ACQUIREs queued behind it still lead to CHILD_SAs"""
+    cfgs = draw(host_configs())
+    hs = draw(st.integers(0, 200))
+    moot = draw(st.sampled_from([['acquire', 0, 0, hs + 7, hs + 8, True, True], ['acquire', 0, 0, hs + 9, hs + 3, True, True]]))
+    ops = [['acquire', 0, 0, hs, hs + 1, False, True],                  # left in flight: the IKE_SA is busy from here on
+           list(moot), ['acquire', 0, draw(st.integers(0, 2)), hs + 2, hs + 3, False, True],
+           ['acquire', 0, draw(st.integers(0, 2)), hs + 4, hs + 5, False, True], ['flush']]
+    return {'cfgs': cfgs, 'stale': 0, 'ops': ops, 'close': True, 'auto_index': False, 'directed': 'queued-behind-a-moot-event'}
+
+
 def cell_worker(task):
+    if task[0] == 'queue':
+        ctx = common.Ctx('C15', 'quick', task[2])
+        st_ = Stats()
+        hyp_search(ctx, st_, queue_cases(), body, task[1], task[2])
+        return st_
     by_peer, n, count, seed = task
     ctx = common.Ctx('C15', 'quick', seed)
     st_ = Stats()
@@ -498,6 +516,7 @@ def run(ctx):
     for st_ in pmap(worker, [(n, ctx.seed * 64 + i) for i in range(common.NCPU)]):
         ctx.stats.merge(st_)
     cells = [(bp, k, 3 if ctx.quick else 40, ctx.seed * 64 + 7 * k + bp) for bp in (False, True) for k in range(5)]
+    cells += [('queue', 4 if ctx.quick else 60, ctx.seed * 64 + 50 + i) for i in range(4)]
     for st_ in pmap(cell_worker, cells):
         ctx.stats.merge(st_)
     if not ctx.quick:
